@@ -126,7 +126,7 @@ pub fn generate(rng: &mut Rng, thorough: bool, out: &mut Out, for_c14: bool) {
         }
     }
     let keys: Vec<i64> = verif_hooks::m_table().iter().map(|r| r.0 as i64).collect();
-    let n = if thorough { 600 } else { 60 };
+    let n = if thorough { 1200 } else { 280 };
     for i in 0..n {
         // sizes: every listed key in turn, plus unlisted and out-of-range ones
         let m = match i % 4 {
